@@ -580,9 +580,95 @@ def unit_copc():
     return "\n".join(out)
 
 
+def gen_reader_read_points(out):
+    """LasReader.read_points(n): the cursor arithmetic - how many points are asked of the point source and where the cursor
+    ends - sliced out of the method (record construction, logging and the lazily created point source are not integers)"""
+    from laspy.lasreader import LasReader
+    fd = get_funcdef(LasReader.read_points)
+    if [a.arg for a in fd.args.args] != ["self", "n"]:
+        raise TranslationError("signature of LasReader.read_points changed")
+    ctx = Ctx({}, {}, {}, {"n": "Int"})
+    ctx.all_int = True
+    ctx.attr_map = {"self.header.point_count": ("point_count", "Int"), "self.points_read": ("points_read", "Int")}
+    seen = {"requested": False, "cursor": False}
+
+    def ex(node):
+        if isinstance(node, ast.Call) and isinstance(node.func, ast.Name) and node.func.id == "min" and len(node.args) == 2:
+            return f"(min {ex(node.args[0])} {ex(node.args[1])})"
+        return expr(ctx, node)[0]
+
+    def source_request(node):
+        for sub in ast.walk(node):
+            if isinstance(sub, ast.Call) and dotted(sub.func) == "self.point_source.read_n_points" and len(sub.args) == 1:
+                return sub.args[0]
+        return None
+
+    def only_logging(stmts):
+        return all(isinstance(t, ast.Expr) and isinstance(t.value, ast.Call) and (dotted(t.value.func) or "").startswith("logger.") for t in stmts)
+
+    def comp(stmts, have_req, have_cur):
+        if not stmts:
+            raise TranslationError("LasReader.read_points: control falls off the end")
+        s, rest = stmts[0], stmts[1:]
+        if isinstance(s, ast.Expr) and isinstance(s.value, ast.Constant):
+            return comp(rest, have_req, have_cur)
+        if isinstance(s, ast.Assign) and len(s.targets) == 1 and isinstance(s.targets[0], ast.Name):
+            name = s.targets[0].id
+            if name == "_":
+                return comp(rest, have_req, have_cur)
+            req = source_request(s.value)
+            if req is not None:
+                if have_req:
+                    raise TranslationError("LasReader.read_points asks the point source twice")
+                seen["requested"] = True
+                return f"let requested := {ex(req)}\n" + comp(rest, True, have_cur)
+            if isinstance(s.value, ast.Call) and (dotted(s.value.func) or "").startswith("record."):
+                return comp(rest, have_req, have_cur)          # building the returned record
+            term = ex(s.value)
+            ctx.types[name] = "Int"
+            return f"let {name} := {term}\n" + comp(rest, have_req, have_cur)
+        if isinstance(s, ast.AugAssign) and dotted(s.target) == "self.points_read" and isinstance(s.op, ast.Add):
+            seen["cursor"] = True
+            return f"let cursor := points_read + {ex(s.value)}\n" + comp(rest, have_req, True)
+        if isinstance(s, ast.Assign) and len(s.targets) == 1 and dotted(s.targets[0]) == "self.points_read":
+            seen["cursor"] = True
+            return f"let cursor := {ex(s.value)}\n" + comp(rest, have_req, True)
+        if isinstance(s, ast.If):
+            if not s.orelse and only_logging(s.body):
+                return comp(rest, have_req, have_cur)
+            c = as_bool(ctx, s.test)
+            a = comp(s.body + rest, have_req, have_cur)
+            b = comp(s.orelse + rest, have_req, have_cur)
+            return f"if {c} then\n{textwrap.indent(a, '  ')}\nelse\n{textwrap.indent(b, '  ')}"
+        if isinstance(s, ast.Return):
+            v = s.value
+            if isinstance(v, ast.Call) and (dotted(v.func) or "").endswith(".empty"):
+                if have_req or have_cur:
+                    raise TranslationError("LasReader.read_points returns an empty record after touching the source or the cursor")
+                return "none"
+            if isinstance(v, ast.Name):
+                if not (have_req and have_cur):
+                    raise TranslationError("LasReader.read_points returns points without reading the source and moving the cursor")
+                return "some (requested, cursor)"
+            raise TranslationError("LasReader.read_points: unexpected return")
+        raise TranslationError(f"LasReader.read_points: statement {type(s).__name__}")
+
+    body = comp(fd.body, False, False)
+    if not (seen["requested"] and seen["cursor"]):
+        raise TranslationError("LasReader.read_points: no source request / cursor update found")
+    out.append("namespace Reader")
+    out.append("/-- `LasReader.read_points(n)`: `none` = an empty record is returned without reading; `some (k, c)` = `k` points are asked")
+    out.append("    of the point source and the cursor becomes `c` -/")
+    out.append("def read_points (point_count points_read n : Int) : Option (Int × Int) :=")
+    out.append(textwrap.indent(body, "  "))
+    out.append("end Reader")
+    out.append("")
+
+
 def unit_reader():
     out = []
     gen_reader_seek(out)
+    gen_reader_read_points(out)
     return "\n".join(out)
 
 
@@ -844,25 +930,45 @@ def split_units(text):
     return units
 
 
-def generate(file_name, unit_list, status):
-    """every unit is generated on its own; a unit that cannot be regenerated (translation or introspection failure)
-    keeps the text it has in the existing file, so that the properties which do not depend on it still build, and is
-    reported as failed, so that the properties which do depend on it are reported as no longer shown to hold"""
+PINNED_DIR = os.path.join(os.path.dirname(HERE), "lean", "pinned")
+
+
+def generate(file_name, unit_list, status, pin=()):
+    """every unit is generated on its own and compared with its *pinned* text (lean/pinned/<file>.lean: the text the
+    proofs were written against, committed). Per unit:
+      identical - the regenerated text equals the pinned one: the theorems are about what the code says now;
+      changed   - it differs: the regenerated text is written, the theorems are re-checked against it;
+      failed    - it cannot be regenerated (translation or introspection failure): the pinned text is written;
+      pinned    - asked for with --pin (after the proofs failed on the regenerated text): the pinned text is written.
+    For `failed` and `pinned` units the tie to the code is no longer the translation: the harness validates the pinned
+    text against the live code by a dense differential run (harness/validators.py) before the property is accepted."""
     path = os.path.join(GEN_DIR, file_name + ".lean")
     try:
-        old_units = split_units(open(path).read())
+        pinned_units = split_units(open(os.path.join(PINNED_DIR, file_name + ".lean")).read())
     except FileNotFoundError:
-        old_units = {}
+        pinned_units = {}
     parts = [HEADER]
     for name, gen in unit_list:
+        cand, err = None, None
         try:
-            text = gen().rstrip("\n") + "\n"
-            status["units"][name] = {"ok": True}
+            cand = gen().rstrip("\n") + "\n"
         except Exception as e:  # TranslationError or introspection failure
+            err = f"{type(e).__name__}: {e}"[:500]
+        pinned = pinned_units.get(name)
+        if cand is not None and name not in pin:
+            text = cand
+            state = "identical" if cand == pinned else "changed"
+        else:
+            text = pinned if pinned is not None else ""
+            state = "pinned" if cand is not None else "failed"
+        ok = state in ("identical", "changed")
+        status["units"][name] = {"ok": ok, "state": state}
+        if err:
+            status["units"][name]["error"] = err
+        if not ok:
             status["ok"] = False
-            status["errors"].append(f"{name}: {type(e).__name__}: {e}")
-            status["units"][name] = {"ok": False, "error": f"{type(e).__name__}: {e}"[:500], "stale": name in old_units}
-            text = old_units.get(name, "")
+            status["errors"].append(f"{name}: {state}" + (f": {err}" if err else ""))
+            status["units"][name]["stale"] = pinned is not None
         parts.append(f"-- BEGIN UNIT {name}\n{text}-- END UNIT {name}\n")
     parts.append(FOOTER)
     if write_if_changed(path, "\n".join(parts)):
@@ -870,9 +976,21 @@ def generate(file_name, unit_list, status):
 
 
 def main():
+    import argparse
+    import shutil
+    ap = argparse.ArgumentParser()
+    ap.add_argument("--pin", default="", help="comma separated units to write with their pinned text")
+    ap.add_argument("--accept", action="store_true", help="developer action: make the regenerated text the pinned text")
+    args = ap.parse_args()
+    pin = tuple(u for u in args.pin.split(",") if u)
     status = {"ok": True, "errors": [], "changed": [], "units": {}}
-    generate("Tables", TABLE_UNITS, status)
-    generate("Funs", FUN_UNITS, status)
+    generate("Tables", TABLE_UNITS, status, pin)
+    generate("Funs", FUN_UNITS, status, pin)
+    if args.accept:
+        os.makedirs(PINNED_DIR, exist_ok=True)
+        for f in ("Tables", "Funs"):
+            shutil.copyfile(os.path.join(GEN_DIR, f + ".lean"), os.path.join(PINNED_DIR, f + ".lean"))
+        status["accepted"] = True
     print(json.dumps(status))
     return 0 if status["ok"] else 3
 
